@@ -3,17 +3,26 @@
 (* impl -> spec for C04: recorded sessions of the real IPC writers and     *)
 (* readers are stepped through IpcDict.tla.                                *)
 (*                                                                         *)
-(* Step-by-step sessions (FileWriter, StreamWriter, StreamEncoder):        *)
-(*   new    [w, hand, align, ctor, nd, top, schema, msgs, start]           *)
-(*   write  [dicts, res, n, cols, msgs]   one batch; `dicts` = the values  *)
-(*          (row tokens) and array identity of every dictionary of the     *)
-(*          batch in the writer's visiting order; `msgs` = the messages    *)
-(*          the call appended, read back with the flatbuffer accessors     *)
-(*          (kind, dictionary id, isDelta, decoded values, layout)         *)
-(*   finish [res, msgs, fdicts, fbatches, end, footer]                     *)
-(*   read   [via, proj, has_schema, schema, out, err]   out[j] = row count,*)
-(*          column tokens and the values attached to each dictionary array *)
-(* Whole sessions: flight [fh, hand, steps, res, msgs, oschema, out, err]. *)
+(* Step-by-step sessions (w = "file" FileWriter, "stream" StreamWriter,    *)
+(* "encoder" StreamEncoder):                                               *)
+(*   new    [w, hand, align, ver, ctor, nd, top, ree, dunion, schema,      *)
+(*           msgs, start]   nd = dictionary ids of the schema, top[d] = 1  *)
+(*          iff id d is not nested in another dictionary's values;         *)
+(*          schema = [meta, fields]: canonical text per field (name, type  *)
+(*          with child fields, nullability, metadata)                      *)
+(*   write  [dicts, res, n, ree0, cols, msgs]   one batch; `dicts` = the   *)
+(*          values (row tokens) and array identity of every dictionary of  *)
+(*          the batch in the writer's visiting order; `cols` = row tokens  *)
+(*          per column; `msgs` = the messages the call appended, read back *)
+(*          with the flatbuffer accessors: [k, id, delta, vals (decoded    *)
+(*          dictionary values), n, off, meta, body, offs (buffer offsets   *)
+(*          mod 64), comp, ver]                                            *)
+(*   finish [res, msgs, fdicts, fbatches, end, footer, cmeta]              *)
+(*   read   [via, proj, has_schema, schema, cmeta, out, err]   out[j] =    *)
+(*          [n, cols, dv]: dv = the values attached to every dictionary    *)
+(*          array of the decoded batch                                     *)
+(* Whole sessions: flight [fh, hand, max, with_schema, steps, res, msgs,   *)
+(*          schema, hschema, oschema, ohschema, odict, out, err].          *)
 (*                                                                         *)
 (* TLC computes from the logged dictionaries, with the operators of        *)
 (* IpcDict.tla, the outcome of every write, the exact message sequence     *)
@@ -28,10 +37,9 @@ EXTENDS IpcDict, TraceBase
 VARIABLES l,
           cfg,       \* the `new` event of the session
           gin,       \* the accepted batches [n, cols, clean]
-          logged,    \* every message logged so far
-          full       \* the last unprojected read [out, err]
+          logged     \* every message logged so far
 
-tvars == <<dvars, l, cfg, gin, logged, full>>
+tvars == <<dvars, l, cfg, gin, logged>>
 
 P(m) == [k |-> m.k, id |-> m.id, delta |-> m.delta, vals |-> m.vals]
 PSeq(ms) == [i \in DOMAIN ms |-> P(ms[i])]
@@ -43,7 +51,7 @@ ModelKind(w) == IF w = "file" THEN "file" ELSE "stream"
 (* W1: the body of every message and every buffer in it start on the configured alignment *)
 Aligned(m, a) ==
   /\ m.body % a = 0
-  /\ ((m.meta > 0 /\ m.k # "eos") => m.meta % 8 = 0)
+  /\ ((m.meta > 0 /\ m.k # "eos") => m.meta % a = 0)      \* prefix + padded flatbuffer (0: Flight, no framing)
   /\ \A i \in DOMAIN m.offs : m.offs[i] % a = 0
 AllAligned(ms, a) == \A i \in DOMAIN ms : Aligned(ms[i], a)
 
@@ -57,30 +65,48 @@ Blocks(ms, k) ==
         ELSE IF ms[i].k = k THEN Append(F[i - 1], [off |-> ms[i].off, meta |-> ms[i].meta, body |-> ms[i].body]) ELSE F[i - 1]
   IN F[Len(ms)]
 
-(***************************************************************************)
-(* Known findings (known_findings.txt), identified narrowly:               *)
-(*  - tracker ahead: a file-writer session with delta handling in which a  *)
-(*    refused write had already advanced the tracker (a batch accepted     *)
-(*    with ~clean exists); every batch accepted before that still reads    *)
-(*    back right;                                                          *)
-(*  - RunEndEncoded under metadata V4: the writer emits a validity buffer  *)
-(*    the reader never consumes; any session whose schema has a run-end    *)
-(*    column written with V4 may fail to read or read shifted buffers.     *)
-(***************************************************************************)
-KFID == "C04-file-delta-tracker-ahead"
-KFREE == "C04-ree-validity-buffer-under-v4"
-KFRead(aheadOk) ==
-  IF cfg.ver = 4 /\ cfg.ree THEN KFREE
-  ELSE IF cfg.w = "file" /\ handling = "delta" /\ aheadOk THEN KFID ELSE ""
-KFFlight(ev) == IF ev.ver = 4 /\ ev.ree THEN KFREE ELSE ""
 FirstUnclean == IF \E j \in DOMAIN gin : ~gin[j].clean THEN CHOOSE j \in DOMAIN gin : ~gin[j].clean /\ \A i \in 1..(j - 1) : gin[i].clean ELSE 0
 
 SameBatch(o, g) == o.n = g.n /\ o.cols = g.cols
 
+(* index of the first batch at which what was read deviates from what was expected (0: none) *)
+FirstDev(out, exp) ==
+  LET m == IF Len(out) > Len(exp) THEN Len(out) ELSE Len(exp)
+      bad == {j \in 1..m : j > Len(out) \/ j > Len(exp) \/ ~SameBatch(out[j], exp[j])}
+  IN IF bad = {} THEN 0 ELSE CHOOSE j \in bad : \A i \in bad : j <= i
+
+(***************************************************************************)
+(* Known findings (known_findings.txt), each identified by the session's   *)
+(* configuration and the exact shape of the deviation; anything else is    *)
+(* rejected.  j = first deviating batch.                                   *)
+(*  - RunEndEncoded under metadata V4: the writer emits a validity buffer  *)
+(*    the reader never consumes (schema has a run-end column, V4): a full  *)
+(*    read returns the batches before the first one it cannot decode and   *)
+(*    then an error; a projected read skips the wrong number of buffers;   *)
+(*  - zero-length slice of a run-end array: written with the single run    *)
+(*    end 0, which the reader refuses: the read stops with an error        *)
+(*    exactly at a batch that holds such a column;                         *)
+(*  - StreamDecoder panics on a dense union whose offsets buffer is not    *)
+(*    4-byte aligned in the caller's chunk (no realignment on that path);  *)
+(*  - tracker ahead: a file-writer session with delta handling in which a  *)
+(*    refused write had already advanced the tracker; every batch accepted *)
+(*    before that point still reads back right.                            *)
+(***************************************************************************)
+KFID == "C04-file-delta-tracker-ahead"
+KFREE == "C04-ree-validity-buffer-under-v4"
+KFRead(ev, out, exp) ==
+  LET j == FirstDev(out, exp) IN
+  CASE cfg.ver = 4 /\ cfg.ree /\ (ev.proj # <<>> \/ (ev.err \notin {"", "panic"} /\ j > 0 /\ Len(out) = j - 1)) -> KFREE
+    [] cfg.ree /\ j \in DOMAIN gin /\ gin[j].ree0 /\ ev.err \notin {"", "panic"} /\ Len(out) = j - 1 -> "C04-ree-empty-slice-unreadable"
+    [] ev.via = "StreamDecoder" /\ ev.err = "panic" /\ cfg.dunion /\ j > 0 /\ Len(out) = j - 1 -> "C04-stream-decoder-dense-union-unaligned"
+    [] cfg.w = "file" /\ handling = "delta" /\ FirstUnclean > 0 /\ j >= FirstUnclean -> KFID
+    [] OTHER -> ""
+KFFlight(ev) == IF ev.ver = 4 /\ ev.ree THEN KFREE ELSE ""
+
 -----------------------------------------------------------------------------
 Init ==
-  /\ l = 1 /\ cfg = [w |-> "stream", align |-> 8, ver |-> 5, ree |-> FALSE, nd |-> 0, top |-> <<>>, schema |-> [meta |-> "", fields |-> <<>>], start |-> 0]
-  /\ gin = <<>> /\ logged = <<>> /\ full = [out |-> <<>>, err |-> "none"]
+  /\ l = 1 /\ cfg = [w |-> "stream", align |-> 8, ver |-> 5, ree |-> FALSE, dunion |-> FALSE, cmeta |-> "[]", nd |-> 0, top |-> <<>>, schema |-> [meta |-> "", fields |-> <<>>], start |-> 0]
+  /\ gin = <<>> /\ logged = <<>>
   /\ kind = "stream" /\ handling = "resend" /\ nd = 0 /\ written = NoDicts(0)
   /\ msgs = <<SchemaMsg>> /\ closed = FALSE /\ given = <<>>
 
@@ -90,12 +116,12 @@ New(ev) ==
   /\ Judge(AllAligned(ev.msgs, ev.align) /\ Contiguous(ev.msgs, ev.start), l, "W1 layout (constructor)")
   /\ Judge(Len(ev.top) = ev.nd, l, "harness: dictionary ids of the schema")
   /\ Start(ModelKind(ev.w), ev.hand, ev.nd)
-  /\ cfg' = ev /\ gin' = <<>> /\ logged' = ev.msgs /\ full' = [out |-> <<>>, err |-> "none"]
+  /\ cfg' = ev /\ gin' = <<>> /\ logged' = ev.msgs
 
 WriteEv(ev) ==
   IF Len(ev.dicts) # nd
   THEN /\ Judge(FALSE, l, "harness: number of dictionaries in the batch")
-       /\ UNCHANGED <<dvars, cfg, gin, logged, full>>
+       /\ UNCHANGED <<dvars, cfg, gin, logged>>
   ELSE LET e == Encode(kind, handling, written, ev.dicts)
            sch == IF cfg.w = "encoder" /\ ~HasSchema(logged) THEN <<SchemaMsg>> ELSE <<>>
            exp == sch \o (IF e.err THEN <<>> ELSE e.out \o <<BatchMsg>>)
@@ -107,9 +133,9 @@ WriteEv(ev) ==
        /\ Judge(ev.msgs # <<>> /\ ev.res = "ok" => ev.msgs[Len(ev.msgs)].n = ev.n, l, "row count in the record batch message")
        /\ Judge(AllAligned(ev.msgs, cfg.align), l, "W1 layout")
        /\ Write(ev.dicts)
-       /\ gin' = IF e.err THEN gin ELSE Append(gin, [n |-> ev.n, cols |-> ev.cols, clean |-> Stale = {}])
+       /\ gin' = IF e.err THEN gin ELSE Append(gin, [n |-> ev.n, cols |-> ev.cols, clean |-> Stale = {}, ree0 |-> ev.ree0])
        /\ logged' = logged \o ev.msgs
-       /\ UNCHANGED <<cfg, full>>
+       /\ UNCHANGED cfg
 
 FinishEv(ev) ==
   LET sch == IF cfg.w = "encoder" /\ ~HasSchema(logged) THEN <<SchemaMsg>> ELSE <<>>
@@ -124,7 +150,8 @@ FinishEv(ev) ==
              /\ ev.footer = ev.end,
            l, "W2 footer blocks")
   /\ logged' = all
-  /\ UNCHANGED <<cfg, gin, full>>
+  /\ cfg' = [cfg EXCEPT !.cmeta = ev.cmeta]
+  /\ UNCHANGED gin
 
 (* the dictionaries attached to the decoded batches are those IpcDict's reader holds *)
 AttachedOk(out, snaps) ==
@@ -134,27 +161,22 @@ AttachedOk(out, snaps) ==
     /\ \A d \in 1..nd : cfg.top[d] = 1 => out[j].dv[d] = snaps[j].d[d]
 
 ReadFull(ev) ==
-  LET fu == FirstUnclean
-      exact == /\ ev.err = "" /\ Len(ev.out) = Len(gin)
-               /\ \A j \in DOMAIN gin : SameBatch(ev.out[j], gin[j])
-      prefixOk == fu > 0 /\ \A j \in 1..(fu - 1) : j <= Len(ev.out) /\ SameBatch(ev.out[j], gin[j])
-  IN
-  /\ JudgeKF(exact, l, "round trip", KFRead(prefixOk))
-  /\ Judge(ev.has_schema /\ ev.schema = cfg.schema, l, <<"schema", ev.via>>)
+  /\ JudgeKF(ev.err = "" /\ FirstDev(ev.out, gin) = 0, l, "round trip", KFRead(ev, ev.out, gin))
+  /\ Judge(ev.has_schema /\ ev.schema = cfg.schema /\ ev.cmeta = cfg.cmeta, l, <<"schema", ev.via>>)
   /\ Judge(AttachedOk(ev.out, ReaderSnaps(kind, nd, msgs)), l, <<"reader dictionaries", ev.via>>)
-  /\ full' = [out |-> ev.out, err |-> ev.err]
   /\ UNCHANGED <<dvars, cfg, gin, logged>>
 
+(* projection on read = projection of the full read (which is the input, see ReadFull) *)
 ProjCols(cols, proj) == [p \in DOMAIN proj |-> cols[proj[p] + 1]]
 ReadProj(ev) ==
   LET inRange == \A p \in DOMAIN ev.proj : ev.proj[p] + 1 \in DOMAIN cfg.schema.fields
-      ok == /\ inRange /\ ev.err = full.err /\ Len(ev.out) = Len(full.out)
-            /\ \A j \in DOMAIN full.out : ev.out[j].n = full.out[j].n /\ ev.out[j].cols = ProjCols(full.out[j].cols, ev.proj)
+      exp == [j \in DOMAIN gin |-> [n |-> gin[j].n, cols |-> ProjCols(gin[j].cols, ev.proj)]]
   IN
-  /\ JudgeKF(ok, l, "projection", KFRead(FirstUnclean > 0))
-  /\ Judge(inRange /\ ev.has_schema /\ ev.schema.meta = cfg.schema.meta /\ ev.schema.fields = ProjCols(cfg.schema.fields, ev.proj),
+  /\ Judge(inRange, l, "harness: projection index")
+  /\ inRange => JudgeKF(ev.err = "" /\ FirstDev(ev.out, exp) = 0, l, "projection", KFRead(ev, ev.out, exp))
+  /\ Judge(inRange => (ev.has_schema /\ ev.schema.meta = cfg.schema.meta /\ ev.schema.fields = ProjCols(cfg.schema.fields, ev.proj)),
            l, <<"projected schema", ev.via>>)
-  /\ UNCHANGED <<dvars, cfg, gin, logged, full>>
+  /\ UNCHANGED <<dvars, cfg, gin, logged>>
 
 -----------------------------------------------------------------------------
 (* Flight.  The encoder splits a batch into consecutive slices (how many is an *)
@@ -200,7 +222,7 @@ FlightEv(ev) ==
                /\ ev.oschema.meta = ev.schema.meta
                /\ IF resend THEN ev.oschema.fields = ev.schema.fields
                             ELSE ev.ohschema.fields = ev.hschema.fields /\ ~ev.odict,
-             l, <<"flight schema", ev.fh>>,
+             l, "flight schema",
              (* the only difference: nullability / metadata of fields of union type *)
              IF /\ ev.oschema.meta = ev.schema.meta
                 /\ IF resend THEN ev.oschema.ufields = ev.schema.ufields
@@ -216,7 +238,7 @@ FlightEv(ev) ==
                /\ j <= Len(snaps) /\ ~snaps[j].bad /\ Len(ev.out[j].dv) = ev.nd
                /\ \A d \in 1..ev.nd : ev.top[d] = 1 => ev.out[j].dv[d] = snaps[j].d[d],
            l, "flight: dictionaries held by the decoder")
-  /\ UNCHANGED <<dvars, cfg, gin, logged, full>>
+  /\ UNCHANGED <<dvars, cfg, gin, logged>>
 
 -----------------------------------------------------------------------------
 Next ==
